@@ -135,16 +135,21 @@ class G:
         A = []
         sel = [{"m": "select", "a": [self.expr(TA) for _ in range(self.rng.randint(1, 2))]}
                for _ in range(self.rng.randint(1, 3))]
-        if self.p(0.25):
-            sel.append({"m": "distinct", "a": []})
-        if cls == "MSSQLQuery" and self.p(0.4):
-            sel.append({"m": "top", "a": [self.ch([1, 10])]})
-        if cls == "MySQLQuery" and self.p(0.4):
-            sel.append({"m": "modifier", "a": ["SQL_CALC_FOUND_ROWS"]})
-        if cls == "PostgreSQLQuery" and self.p(0.4):
-            sel.append({"m": "distinct_on", "a": [F(TA, self.ch(COLS))]})
-        self.rng.shuffle(sel)
+        if self.p(0.3):
+            # duplicates in the select list are legal and stay (DISTINCT is a flag, not a call-time de-duplication)
+            sel.append({"m": "select", "a": [dict(sel[0]["a"][0])]})
         A.append({"group": "select", "calls": sel})
+        # flags of the SELECT clause are independent pieces of state: one actor each
+        if self.p(0.25):
+            A.append({"group": "distinct", "calls": [{"m": "distinct", "a": []}] * self.rng.randint(1, 2)})
+        if cls == "MSSQLQuery" and self.p(0.4):
+            A.append({"group": "top", "calls": [{"m": "top", "a": [self.ch([1, 10])]}]})
+        if cls == "MySQLQuery" and self.p(0.4):
+            A.append({"group": "modifier", "calls": [{"m": "modifier", "a": [x]} for x in
+                                                      ["SQL_CALC_FOUND_ROWS", "HIGH_PRIORITY"][: self.rng.randint(1, 2)]]})
+        if cls == "PostgreSQLQuery" and self.p(0.4):
+            A.append({"group": "distinct_on", "calls": [{"m": "distinct_on", "a": [F(TA, self.ch(COLS))]}
+                                                         for _ in range(self.rng.randint(1, 2))]})
         if self.p(0.25):
             A.append({"group": "from2", "calls": [{"m": "from_", "a": [TD]}]})
         if self.p(0.5):
@@ -162,9 +167,9 @@ class G:
                 g.append({"m": "rollup", "a": [F(TA, self.ch(COLS))]})
             if cls == "MySQLQuery" and self.p(0.3):
                 g.append({"m": "rollup", "a": [], "kw": {"vendor": "mysql"}})
-            if cls == "Query" and self.p(0.2):
-                g.append({"m": "with_totals", "a": []})
             A.append({"group": "groupby", "calls": g})
+            if cls == "Query" and self.p(0.3):
+                A.append({"group": "with_totals", "calls": [{"m": "with_totals", "a": []}]})
         if self.p(0.3):
             A.append({"group": "having", "calls": [{"m": "having", "a": [self.crit(TA, agg=True)]} for _ in range(self.rng.randint(1, 2))]})
         if self.p(0.5):
@@ -220,6 +225,9 @@ class G:
             calls = [{"m": "slice", "a": [{"t": "slice", "a": self.ch([None, 2]), "b": self.ch([5, 9])}]}]
         else:
             calls = [lim, off, {"m": "offset", "a": [7]}]
+        if cls not in ("SQLLiteQuery", "MySQLQuery") and len(calls) >= 2 and calls[1]["m"] == "offset" and self.p(0.5):
+            # offset first (these dialects have grammar for OFFSET without LIMIT)
+            calls[0], calls[1] = calls[1], calls[0]
         return calls
 
     def k_insert(self, cls, mode):
@@ -694,6 +702,10 @@ def items_with(prog, ai, keep_idx, clause, ctx, iq, bs):
     p2["actors"] = [dict(a) for a in prog["actors"]]
     calls = prog["actors"][ai]["calls"]
     p2["actors"][ai] = {"group": prog["actors"][ai]["group"], "calls": [c for i, c in enumerate(calls) if i in keep_idx]}
+    if clause == "SELECT":
+        # keyword flags of the SELECT clause would prefix the first item: judge the list without them
+        p2["actors"] = [a if a["group"] not in ("distinct", "top", "modifier", "distinct_on") else {"group": a["group"], "calls": []}
+                        for a in p2["actors"]]
     head, err, _ = run_merge(p2, canonical(p2))
     if err is not None or head is None:
         return None
